@@ -222,6 +222,9 @@ class LibMixin:
             if kind == "int":
                 if v.kind == "real":
                     x = v.t
+                    exact = self.int_of_real(z3.simplify(x))
+                    if exact is not None:
+                        return Sc("int", exact)
                     return Sc("int", ite(x >= 0, z3.ToInt(x), -z3.ToInt(-x)))
                 return Sc("int", to_int(v))
             if kind == "real":
@@ -230,6 +233,28 @@ class LibMixin:
         if self.is_arr1(st, v):
             return self.astype(st, node, v, kind)
         raise VCError("cast of %r at line %d" % (v, node.lineno))
+
+    def int_of_real(self, t):
+        """The Int term equal to real term t when t is syntactically integral, else None."""
+        if z3.is_to_real(t):
+            return t.arg(0)
+        if z3.is_rational_value(t) and t.denominator_as_long() == 1:
+            return zint(t.numerator_as_long())
+        if z3.is_app(t) and t.decl().kind() == z3.Z3_OP_ITE:
+            a, b = self.int_of_real(t.arg(1)), self.int_of_real(t.arg(2))
+            if a is not None and b is not None:
+                return ite(t.arg(0), a, b)
+        if z3.is_app(t) and t.decl().kind() in (z3.Z3_OP_ADD, z3.Z3_OP_MUL, z3.Z3_OP_SUB, z3.Z3_OP_UMINUS):
+            parts = [self.int_of_real(c) for c in t.children()]
+            if all(p is not None for p in parts):
+                k = t.decl().kind()
+                if k == z3.Z3_OP_UMINUS:
+                    return -parts[0]
+                r = parts[0]
+                for p in parts[1:]:
+                    r = (r + p) if k == z3.Z3_OP_ADD else (r * p) if k == z3.Z3_OP_MUL else (r - p)
+                return r
+        return None
 
     def astype(self, st, node, v, kind):
         k = self.elem_kind(st, v)
